@@ -128,6 +128,9 @@ func c16(r *Report) propMeta {
 	r.Rule("C16.R10", "store-key agreement: every point read/delete addresses a written key family")
 	r.StoreKeyAgreement("store-keys", "restake", 6, nil)
 
+	r.Rule("C16.R11", "E19 constructors of x/restake/types store their inputs unchanged")
+	r.CtorFaithful("ctor", faithfulCtors["restake"]...)
+
 	return propMeta{
 		Decided: []string{
 			"R1 Unstake pays out only past !isNeg(SafeSub) and isValidPower(total power read AFTER the stake record was rewritten); failing edges return errors",
@@ -140,6 +143,7 @@ func c16(r *Report) propMeta {
 			"R8 Stake/Unstake move exactly the coins they record; Stake gated by AllowedDenoms",
 			"R9 index key writer and reader agree on the 8-byte big-endian power field at the same offset",
 			"R10 every KV-store Get/Has/Delete of x/restake uses a key builder of x/restake/types that some Set of the module also uses (a probe of an iteration prefix or of a sibling family is always-empty state)",
+			"R11 the literal constructors of x/restake/types (frozen list) store each parameter or a constant unchanged in the record they build: what a handler validated is what is stored",
 		},
 		Undecided: []string{"module balance == sum of stakes over histories", "rounding in TokensFromSharesTruncated", "slashing"},
 		Assume:    []string{"staking module invokes the registered hooks and aborts on their error", "msg handlers atomic"},
